@@ -137,6 +137,14 @@ func (g *gen) gate() []string {
 	return out
 }
 
+// gateOften: one feature half of the time (for interface families gated member by member)
+func (g *gen) gateOften() []string {
+	if g.r.Chance(1, 2) {
+		return nil
+	}
+	return []string{rng.Pick(g.r, featureUniverse)}
+}
+
 func subsetOf(a, b []string) bool {
 	for _, x := range a {
 		found := false
@@ -533,10 +541,18 @@ func genSchema(r *rng.R, opt genOpt) *gSchema {
 	}
 
 	// interfaces and objects: shells first
+	// gating across "implements": half of the definitions keep an interface family in one feature
+	// set, the other half gate every interface and every implementing object on its own (then
+	// "interfaces" / "possibleTypes" must leave out what the request cannot see)
 	ifaceReq := g.gate()
+	incoherent := !opt.NoGating && r.Chance(1, 2)
 	var ifaces, objects []*gType
 	for i, n := 0, pick(0, 2); i < n; i++ {
-		ifaces = append(ifaces, s.add(&gType{Kind: "interface", Name: g.typeName(), Desc: g.desc(), Req: ifaceReq}))
+		req := ifaceReq
+		if incoherent {
+			req = g.gateOften()
+		}
+		ifaces = append(ifaces, s.add(&gType{Kind: "interface", Name: g.typeName(), Desc: g.desc(), Req: req}))
 	}
 	nObj := pick(1, 5)
 	for i := 0; i < nObj; i++ {
@@ -548,8 +564,10 @@ func genSchema(r *rng.R, opt genOpt) *gSchema {
 				}
 			}
 		}
-		if len(o.Ifaces) > 0 {
+		if len(o.Ifaces) > 0 && !incoherent {
 			o.Req = ifaceReq
+		} else if i > 0 && len(o.Ifaces) > 0 {
+			o.Req = g.gateOften()
 		} else if i > 0 {
 			o.Req = g.gate()
 		}
@@ -580,7 +598,11 @@ func genSchema(r *rng.R, opt genOpt) *gSchema {
 	}
 
 	outs := g.outputTypeNames()
-	mkFields := func(owner *gType, n int, taken map[string]bool) {
+	// ctx: the features the owner's fields may rely on without requiring them themselves.  For an
+	// object that is its own requirement; for an interface it is what the interface and all its
+	// implementers require in common (an object's field may not require more than the interface's
+	// field it implements, and its types no more than the field and the object together).
+	mkFields := func(owner *gType, ctx []string, n int, taken map[string]bool) {
 		for i, nm := range g.memberNames(n, false) {
 			if taken[nm] {
 				continue
@@ -596,15 +618,15 @@ func genSchema(r *rng.R, opt genOpt) *gSchema {
 			f.Ty = g.wrap(base)
 			need := s.get(base).Req
 			if i > 0 || len(owner.Fields) > 0 {
-				f.Args = g.inputValues(r.Intn(4), union(union(owner.Req, f.Req), featureUniverse), true)
+				f.Args = g.inputValues(r.Intn(4), union(union(ctx, f.Req), featureUniverse), true)
 				for _, a := range f.Args {
 					need = union(need, s.get(a.Ty.base()).Req)
 				}
 			} else {
-				f.Args = g.inputValues(r.Intn(3), owner.Req, true)
+				f.Args = g.inputValues(r.Intn(3), ctx, true)
 			}
 			for _, x := range need {
-				if !subsetOf([]string{x}, union(owner.Req, f.Req)) {
+				if !subsetOf([]string{x}, union(ctx, f.Req)) {
 					f.Req = append(f.Req, x)
 				}
 			}
@@ -612,7 +634,21 @@ func genSchema(r *rng.R, opt genOpt) *gSchema {
 		}
 	}
 	for _, i := range ifaces {
-		mkFields(i, r.Range(1, 3), map[string]bool{})
+		ctx := i.Req
+		for _, o := range objects {
+			for _, in := range o.Ifaces {
+				if in == i.Name {
+					var both []string
+					for _, x := range ctx {
+						if subsetOf([]string{x}, o.Req) {
+							both = append(both, x)
+						}
+					}
+					ctx = both
+				}
+			}
+		}
+		mkFields(i, ctx, r.Range(1, 3), map[string]bool{})
 	}
 	for _, o := range objects {
 		taken := map[string]bool{}
@@ -633,7 +669,7 @@ func genSchema(r *rng.R, opt genOpt) *gSchema {
 		if len(o.Fields) > 0 {
 			n = r.Intn(3)
 		}
-		mkFields(o, n, taken)
+		mkFields(o, o.Req, n, taken)
 	}
 	// two interfaces declaring the same field name with different types make an implementing
 	// object invalid: drop the second interface from such objects
